@@ -107,6 +107,17 @@ Example C10_example_anti_join :
   = [(2, 1)]%nat.
 Proof. vm_compute. auto. Qed.
 
+(* TF route priority for ad-hoc records: the cached tf table (registered or computed) is used whenever it
+   exists - also when the concat table is cached too; select distinct from the concat table only without it *)
+Theorem C10_adhoc_route_priority :
+  forall (rec V : Type) veqb (value : nat -> rec -> option V) D route supplied r k tbl,
+    (forall cc, route k = route_of (route_priority false true cc) tbl ->
+       adhoc_tf rec V veqb value D route supplied r k = lookup_tbl V veqb tbl (value k r)) /\
+    (route k = route_of (route_priority false false true) tbl ->
+       adhoc_tf rec V veqb value D route supplied r k = tf_of_data rec V veqb value D k (value k r)).
+Proof. intros. split; [intros cc; apply registered_table_wins|apply distinct_only_without_table]. Qed.
+Print Assumptions C10_adhoc_route_priority.
+
 (* non-vacuity: three records 0,1,2 (value = id mod 2), one exact-match comparison *)
 Definition ex_cmp : list level :=
   [ {| lcond := 0; is_null := false; is_else := false; lm := 9 # 10; lu := 1 # 10; tf_col := Some 0%nat;
